@@ -152,17 +152,35 @@ def genAst (g : Gen) : Ast → List Char × Gen
 
 def tagPool : List (List Ident) :=
   [[], [], [], [.alpha "alpha".toList], [.alpha "beta".toList, .num 1], [.num 0], [.num 1],
-   [.alpha "rc".toList, .num 1], [.alpha "a".toList], [.alpha "0a".toList], [.num 7, .num 8]]
+   [.alpha "rc".toList, .num 1], [.alpha "a".toList], [.alpha "0a".toList], [.num 7, .num 8],
+   [.num 18446744073709551615], [.num 10000000000000000000], [.alpha "-".toList], [.alpha "10a".toList],
+   [.alpha "alpha".toList, .num 0], [.alpha "alpha".toList, .num 0, .num 1],
+   [.alpha "a".toList, .alpha "b".toList, .alpha "c".toList, .num 1, .num 2, .num 3]]
 
 def buildPool : List (List Ident) := [[], [], [], [], [.alpha "build".toList], [.num 1]]
 
 def numPool : List Nat := [0, 0, 1, 1, 2, 3, 10, 900719925474099]
 
+/-- a number of random *magnitude* (bit length first, then the bits), at most MAX_SAFE_INTEGER; every
+third one sits at a power of two or its neighbours -/
+def Gen.wide (g : Gen) : Nat × Gen :=
+  let (bits, g) := g.below 50
+  let (hi, g) := g.next
+  let (lo, g) := g.next
+  let (k, g) := g.below 9
+  let raw := (hi * 4294967296 + lo) % (2 ^ bits) + (if bits = 0 then 0 else 2 ^ (bits - 1))
+  let v := if k == 0 then 2 ^ bits else if k == 1 then 2 ^ bits - 1 else if k == 2 then 2 ^ bits + 1 else raw
+  (min v 900719925474099, g)
+
+def Gen.num (g : Gen) : Nat × Gen :=
+  let (k, g) := g.below 5
+  if k == 0 then g.wide else g.pick numPool
+
 def randNP (g : Gen) : NP × Gen :=
   let (k, g) := g.below 10
-  let (a, g) := g.pick numPool
-  let (b, g) := g.pick numPool
-  let (c, g) := g.pick numPool
+  let (a, g) := g.num
+  let (b, g) := g.num
+  let (c, g) := g.num
   let (p, g) := g.pick tagPool
   let (q, g) := g.pick buildPool
   if k == 0 then (.any, g)
@@ -199,7 +217,7 @@ def randAlt (g : Gen) (garbage : Bool) : Alt × Gen :=
     let (b, g) := randNP g
     (.hyphen a b, g)
   else
-    let (n, g) := g.pick [1, 1, 1, 2, 2, 3]
+    let (n, g) := g.pick [1, 1, 1, 1, 2, 2, 2, 3, 3, 4, 6]
     let (l, g) := randSimples g garbage n
     (.simples l, g)
 
@@ -211,7 +229,7 @@ def randAlts (g : Gen) (garbage : Bool) : Nat → Ast × Gen
     (a :: rest, g)
 
 def randAst (g : Gen) (garbage : Bool) : Ast × Gen :=
-  let (n, g) := g.pick [1, 1, 1, 2, 2, 3]
+  let (n, g) := g.pick [1, 1, 1, 1, 2, 2, 2, 3, 3, 5, 9]
   randAlts g garbage n
 
 /-- the versions on which a tree is evaluated: the neighbourhood of every comparator version -/
